@@ -385,6 +385,11 @@ def check_read_commit(rep, facts):
         def effect(n, m, lab):
             gens, kills = set(), set()
             e = ev.at(n)
+            if e is not None and e[0] == 'READ' and (n.frame.id, n.bb) in reads:
+                # from the poll of the transport on, a count may exist -- also when its result is kept in a local and looked at later
+                # (`let input = poll_read(..); ready!(flush)?; read = ready!(input)?`): only the read's own Pending / Err / zero
+                # edges, or the parse that takes the count, re-establish "nothing uncommitted"
+                kills.add(('CM', n.frame.id, n.bb))
             if e is not None and e[0] == 'PARSE' and e[1] == 'str' and n.term["k"] == "call" and len(n.term["args"]) > 1:
                 a = g.resolve(n.frame, n.term["args"][1], (n.bb, -1))
                 for (fid, bb) in reads:
